@@ -1569,6 +1569,32 @@ def gen_simd_kernels(repo):
         sk = ' ; '.join('%s(%s)' % (c, ' '.join(a.split())) for c, a in calls if not c.endswith('set_epi8'))
         out += '/-- %s: %s: every intrinsic / helper call with its arguments, in textual order -/\n' % (f162a, fn)
         out += 'def u16x2_avx2_%s_skeleton : String := "%s"\n\n' % ('four_rows' if tag == 'four' else 'one_row', sk.replace('"', '\\"'))
+    # U16 on AVX2: both kernels; every 256-bit mask by halves
+    f161a = 'src/convolution/u16x1/avx2.rs'
+    with open(os.path.join(repo, f161a)) as fh:
+        src161a = fh.read()
+    for fn, tag in (('horiz_convolution_one_row', 'one'), ('horiz_convolution_four_rows', 'four')):
+        m = re.search(r'unsafe fn %s\(.*?\n\}' % fn, src161a, re.S)
+        if not m:
+            raise TranslationError("%s: %s not found" % (f161a, fn))
+        body = re.sub(r'//[^\n]*', '', m.group(0))
+        body = re.sub(r'/\*.*?\*/', '', body, flags=re.S)
+        masks = []
+        for a in re.finditer(r'let (\w+)_shuffle = _mm256_set_epi8\(([^;]*?)\);', body, re.S):
+            vals = [int(x) for x in a.group(2).replace('\n', ' ').split(',') if x.strip()]
+            if len(vals) != 32:
+                raise TranslationError("%s: mask %s does not have 32 entries" % (f161a, a.group(1)))
+            masks.append((a.group(1), list(reversed(vals))))
+        if [n for n, _ in masks] != ['l0l1', 'l2l3', 'l4l5', 'l6l7']:
+            raise TranslationError("%s: %s: expected the masks l0l1 .. l6l7, found %s" % (f161a, fn, [n for n, _ in masks]))
+        for (n, v), short in zip(masks, ['l01', 'l23', 'l45', 'l67']):
+            for half, part in (('lo', v[:16]), ('hi', v[16:])):
+                out += '/-- %s: %s: %s 128-bit half of the shuffle mask %s_shuffle, byte 0 first -/\n' % (f161a, fn, 'low' if half == 'lo' else 'high', n)
+                out += 'def u16x1_avx2_%s_%s_%s : List Int := [%s]\n\n' % (tag, short, half, ', '.join(str(x) if x >= 0 else '(%d)' % x for x in part))
+        calls = re.findall(r'\b(_mm(?:256)?_\w+(?:::<\w+>)?|simd_utils::\w+|chunks_exact|remainder|get_unchecked|sum::<i64>|normalizer\.clip|normalizer\.precision)\(([^()]*(?:\([^()]*\)[^()]*)*)\)', body)
+        sk = ' ; '.join('%s(%s)' % (c, ' '.join(a.split())) for c, a in calls if not c.endswith('set_epi8'))
+        out += '/-- %s: %s: every intrinsic / helper call with its arguments, in textual order -/\n' % (f161a, fn)
+        out += 'def u16x1_avx2_%s_skeleton : String := "%s"\n\n' % ('four_rows' if tag == 'four' else 'one_row', sk.replace('"', '\\"'))
     # the vertical pass for 8-bit components (all four u8 pixel types)
     f = 'src/convolution/vertical_u8/sse4.rs'
     with open(os.path.join(repo, f)) as fh:
